@@ -12,6 +12,7 @@ import (
 	gethash "github.com/ethereum/go-ethereum/consensus/ethash"
 	"github.com/ethereum/go-ethereum/core/types"
 	"github.com/ethereum/go-ethereum/params"
+	"github.com/polynetwork/poly/common/verifclock"
 	"github.com/polynetwork/poly/native/service/header_sync/eth"
 	"github.com/polynetwork/poly/native/service/utils"
 	"pgregory.net/rapid"
@@ -72,6 +73,7 @@ type c28Sync struct {
 	MutAt    int       `json:"mutAt"`
 	Mut      string    `json:"mut"`
 	MutArg   int       `json:"mutArg"`
+	NowSlack int       `json:"nowSlack"` // (fake) wall clock of the run = time of the last valid header + NowSlack (>= -15)
 }
 
 type c28Case struct {
@@ -324,7 +326,7 @@ func genSyncRootNum(net uint32) *rapid.Generator[uint64] {
 }
 
 var c28Muts = []string{"none", "diff+1", "diff-1", "diff-era", "gas-hi", "gas-lo", "gas-min", "fee+1", "fee-1", "fee-nil",
-	"used>limit", "time-eq", "time-lt", "extra33", "number+1"}
+	"used>limit", "time-eq", "time-lt", "time-future", "extra33", "number+1"}
 
 func genC28(t *rapid.T) c28Case {
 	mode := rapid.SampledFrom([]string{"hash", "hash", "diff", "diff", "diff", "gas", "fee", "fee", "sizes", "sync", "sync", "sync"}).Draw(t, "mode")
@@ -434,6 +436,7 @@ func genC28(t *rapid.T) c28Case {
 		y.MutAt = rapid.IntRange(0, 3).Draw(t, "mutAt")
 		y.Mut = rapid.SampledFrom(c28Muts).Draw(t, "mut")
 		y.MutArg = rapid.IntRange(0, 1).Draw(t, "mutArg")
+		y.NowSlack = rapid.OneOf(rapid.IntRange(-15, -13), rapid.IntRange(-15, 100), rapid.Just(1_000_000)).Draw(t, "nowSlack")
 		c.Y = y
 	}
 	return c
@@ -903,6 +906,16 @@ func runC28Sync(ctx *ev.Ctx, y *c28Sync) {
 	if res := syncGenesis(w, ethChainID, headerJSON(root)); !res.OK() {
 		ctx.Failf("fixture: syncGenesisHeader by the operator failed: %v", res.Err)
 	}
+	last := root.Time
+	for _, st := range y.Steps {
+		last += st.Dt
+	}
+	now := int64(last) + int64(y.NowSlack)
+	verifclock.SetFake(now)
+	defer verifclock.ClearFake()
+	if y.NowSlack <= -14 {
+		ctx.Label("sync:head-time-at-future-limit")
+	}
 	parent := root
 	crossed := false
 	for i, st := range y.Steps {
@@ -982,6 +995,10 @@ func runC28Sync(ctx *ev.Ctx, y *c28Sync) {
 				bad.Time = parent.Time
 			case "time-lt":
 				bad.Time = parent.Time - 1
+			case "time-future":
+				// 16 s ahead of the wall clock (allowed: 15 s); difficulty recomputed so that only this rule is violated
+				bad.Time = uint64(now) + 16
+				bad.Diff = bigHex(refDifficulty(refDelay(y.Net, num, r.london(good)), bad.Time, parent.Time, parent.diff(), parent.number(), parent.hasUncles()))
 			case "extra33":
 				bad.Extra = ev.B(bytes.Repeat([]byte{7}, 33))
 			case "number+1":
@@ -1032,6 +1049,8 @@ func runC28Sync(ctx *ev.Ctx, y *c28Sync) {
 }
 
 func TestC28(t *testing.T) {
+	verifclock.Reset()
+	defer func() { ev.Get("C28").Extra("clock_sites", verifclock.Snapshot()) }()
 	ev.Drive(t, "C28",
 		"cases: one of six modes - header hash of arbitrary field combinations (RLP edge values, with/without base fee); difficulty of the three calculators "+
 			"(EIP-2384/3554/4345 delays) for parent numbers at bomb-period boundaries, time deltas around multiples of 9 and the -99 clamp; gas-limit window edges; "+
